@@ -174,6 +174,7 @@ type gen struct {
 	sh       []*big.Int
 	small    []*big.Int
 	huge     []*big.Int
+	lowPush  bool // jumpyBytes with fewer PUSH opcodes (more reachable JUMPDESTs)
 	noGas    bool // search mode: the reference has no gas, so no GAS opcode and ample gas
 	hist     map[byte]int
 }
@@ -270,7 +271,21 @@ func (g *gen) gas() uint64 {
 func (g *gen) line(p *prog, input []byte) string {
 	p.link()
 	g.count(p.b)
-	return runLine(g.cfg(), g.gas(), p.b, input)
+	cfg := g.cfg()
+	// programs using PUSH0/MCOPY mostly run where those exist (else they only test "invalid opcode")
+	if cfg&2 == 0 && g.r.Chance(3, 4) {
+		for pc := 0; pc < len(p.b); pc++ {
+			o := p.b[pc]
+			if o == MCOPY || o == PUSH0 {
+				cfg |= 2
+				break
+			}
+			if o >= 0x60 && o <= 0x7f {
+				pc += int(o) - 0x5f
+			}
+		}
+	}
+	return runLine(cfg, g.gas(), p.b, input)
 }
 
 // fullGas: enough for every deterministic family under every fork configuration
@@ -507,6 +522,7 @@ func (g *gen) all(emit func(stream, line string)) {
 	}
 	// 6d. jump-destination analysis WITH its caches: frames of one call tree sharing the map
 	for i := 0; i < 500*scale; i++ {
+		g.lowPush = i%2 == 0
 		nc := 2 + g.r.Intn(3)
 		codes := make([][]byte, nc)
 		var toks []string
@@ -535,7 +551,7 @@ func (g *gen) all(emit func(stream, line string)) {
 				}
 			}
 			d := g.r.Intn(len(codes[c]) + 2)
-			if len(fives) > 0 && g.r.Chance(3, 4) {
+			if len(fives) > 0 && g.r.Chance(9, 10) {
 				d = fives[g.r.Intn(len(fives))]
 			}
 			if g.r.Chance(1, 6) && q > 0 {
@@ -546,6 +562,7 @@ func (g *gen) all(emit func(stream, line string)) {
 		}
 		emit("jd", "jd "+strings.Join(toks, " "))
 	}
+	g.lowPush = false
 	// 7. the analysis alone
 	for i := 0; i < 400*scale; i++ {
 		code := g.jumpyBytes()
@@ -594,7 +611,11 @@ func (g *gen) jumpyBytes() []byte {
 	}
 	b := make([]byte, n)
 	for i := range b {
-		switch g.r.Intn(5) {
+		k := g.r.Intn(5)
+		if g.lowPush && (k == 1 || k == 2) && g.r.Chance(3, 4) {
+			k = g.r.Pick(0, 3)
+		}
+		switch k {
 		case 0:
 			b[i] = JUMPDEST
 		case 1:
@@ -630,7 +651,7 @@ func (g *gen) input() []byte {
 }
 
 func (g *gen) memOff(allowHuge bool) *big.Int {
-	if allowHuge && g.r.Chance(1, 14) {
+	if allowHuge && g.r.Chance(1, 40) {
 		return g.huge[g.r.Intn(len(g.huge))]
 	}
 	if g.r.Chance(1, 3) {
@@ -640,7 +661,7 @@ func (g *gen) memOff(allowHuge bool) *big.Int {
 }
 
 func (g *gen) memLen(allowHuge bool) *big.Int {
-	if allowHuge && g.r.Chance(1, 16) {
+	if allowHuge && g.r.Chance(1, 45) {
 		return g.huge[g.r.Intn(len(g.huge))]
 	}
 	if g.r.Chance(1, 5) {
@@ -739,7 +760,7 @@ func (g *gen) instr(p *prog, s *sim, memHeavy bool) {
 		p.push(g.memOff(true))
 		p.op(g.pick(CALLDATACOPY, CODECOPY))
 	case k < 95: // RETURNDATACOPY (return data is always empty here)
-		if g.r.Chance(1, 2) {
+		if g.r.Chance(3, 4) {
 			p.pushU(0)
 			p.pushU(0)
 		} else {
@@ -904,14 +925,14 @@ func (g *gen) branching() *prog {
 func (g *gen) randomCode() string {
 	n := g.r.Intn(60)
 	code := make([]byte, 0, n+40)
-	if g.r.Chance(2, 3) {
-		for i := 0; i < 1+g.r.Intn(5); i++ {
+	weighted := g.r.Chance(3, 4)
+	if weighted || g.r.Chance(1, 2) {
+		for i := 0; i < 3+g.r.Intn(7); i++ {
 			q := &prog{}
 			q.push(g.operand())
 			code = append(code, q.b...)
 		}
 	}
-	weighted := g.r.Chance(3, 4)
 	pool := []byte{ADD, MUL, SUB, DIV, SDIV, MOD, SMOD, ADDMOD, MULMOD, EXP, SIGNEXTEND, LT, GT, SLT, SGT, EQ, ISZERO, AND, OR, XOR,
 		NOT, BYTE, SHL, SHR, SAR, SHA3, CALLDATALOAD, CALLDATASIZE, CALLDATACOPY, CODESIZE, CODECOPY, RETURNDATASIZE, POP, MLOAD,
 		MSTORE, MSTORE8, JUMP, JUMPI, PC, MSIZE, GAS, JUMPDEST, MCOPY, PUSH0, PUSH1, PUSH1, PUSH2, 0x63, 0x7f, DUP1, 0x81, 0x82, SWAP1, 0x91,
